@@ -45,6 +45,14 @@ var zzScripts = []zzScript{
 	{"stray-continue", "continue", 2},
 	{"go-function-error-value", "strconv = import(\"strconv\")\nr = strconv.Atoi(\"x\")\nprintln(r[1] != nil)", 0},
 	{"empty", "", 0},
+	// builtins that look at the environment the script runs in
+	{"defined-own-names", "x = 1\nprintln(defined(\"x\"))\nprintln(defined(\"nosuch\"))\nprintln(defined(\"println\"))\nprintln(defined(\"args\"))", 0},
+	{"defined-gates-a-throw", "func helper(a) { return a }\nif !defined(\"helper\") { throw \"helper is missing\" }\nprintln(helper(3))", 0},
+	{"defined-module", "module m { y = 1 }\nprintln(defined(\"m\"))\nprintln(defined(\"y\"))", 0},
+	{"defined-inside-function", "g = 2\nf = func() { return defined(\"g\") }\nprintln(f())", 0},
+	{"load-sees-loader-globals", "g = 5\nload(\"LIBPATH\")\nprintln(h)", 0},
+	{"load-missing-file", "println(1)\nload(\"/zzverif/no-such-lib.ank\")", 2},
+	{"load-defines-for-loader", "load(\"LIBPATH2\")\nprintln(twice(4))", 0},
 }
 
 func zzLibrary(src string, a []string) (string, error) {
@@ -60,6 +68,11 @@ func zzLibrary(src string, a []string) (string, error) {
 
 func ZZ_C18_run_noninteractive() {
 	s := zzScripts[zz.Choose(len(zzScripts))]
+	if strings.Contains(s.src, "LIBPATH") {
+		lib := zz.SetFile("/zzverif/lib.ank", "h = g + 1")
+		lib2 := zz.SetFile("/zzverif/lib2.ank", "func twice(x) { return x * 2 }")
+		s.src = strings.Replace(strings.Replace(s.src, "LIBPATH2", lib2, 1), "LIBPATH", lib, 1)
+	}
 	useFile := zz.Choose(2) == 1
 	nargs := zz.Choose(3)
 	trailing := []string{"x", "y z"}[:nargs]
@@ -114,7 +127,7 @@ func ZZ_C18_run_noninteractive() {
 	if code == 0 {
 		zz.Assert(rest == "", "C18.no-extra-output-on-success/"+id)
 	} else {
-		zz.Assert(strings.Count(rest, "\n") == 1 && strings.HasSuffix(rest, "\n") && strings.Contains(rest, libErr.Error()), "C18.one-diagnostic-line/"+id)
+		zz.Assert(strings.Count(rest, "\n") == 1 && strings.HasSuffix(rest, "\n") && libErr != nil && strings.Contains(rest, libErr.Error()), "C18.one-diagnostic-line/"+id)
 	}
 }
 
